@@ -224,6 +224,53 @@ fn long_binders(ctx: &Ctx, st: &mut Stats) {
     }
 }
 
+/// Nesting deeper than any plausible recursion guard (300-600 levels) around binders: nested
+/// quantifiers on distinct names, binders below long negation chains, inside nested if-conditions,
+/// inside nested lists and below left-nested operators.
+fn deep_nesting(ctx: &Ctx, st: &mut Stats) {
+    for depth in ctx.tier.pick(vec![257usize, 300], vec![129, 257, 300, 600]) {
+        let mut texts: Vec<String> = Vec::new();
+        // nested quantifiers on distinct names, the body mentions the first, a middle and the last
+        let mut t = String::new();
+        for i in 0..depth {
+            t.push_str(&format!("{} x{} # ", if i % 2 == 0 { "exists" } else { "forall" }, i));
+        }
+        t.push_str(&format!("(x0 | x{} | x{} | a)", depth / 2, depth - 1));
+        texts.push(t);
+        texts.push(format!("a & {}(forall x # (x | a))", "-".repeat(depth)));
+        texts.push(format!("x & {}(exists x, y # (x & y & c))", "- ".repeat(depth)));
+        // nested if-conditions with a fixed point at the bottom
+        let mut t = String::from("(gfp X # (X & b))");
+        for _ in 0..depth {
+            t = format!("if {} then b else b", t);
+        }
+        texts.push(t);
+        // nested lists
+        let mut t = String::from("exists q # (q & a)");
+        for _ in 0..depth {
+            t = format!("[{}] >= 1", t);
+        }
+        texts.push(t);
+        // left-nested operators
+        let mut t = String::from("(forall z # z | a)");
+        for _ in 0..depth {
+            t = format!("({} & a)", t);
+        }
+        texts.push(t);
+        // nested fixed points on distinct names
+        let mut t = String::from("a");
+        for i in 0..depth.min(300) {
+            t = format!("lfp F{} # (a | {})", i, t);
+        }
+        texts.push(t);
+        for text in texts {
+            check_text(st, &text, None, "deep-nesting");
+            st.bump("deeply_nested_cases");
+            st.max("max_nesting_depth", depth as u64);
+        }
+    }
+}
+
 fn compare_lists(st: &mut Stats, text: &str, fv: &[String], vs: &[String], want_free: &[String], order: &[String], case: &dyn Fn() -> Value) {
     // sets must be exact; `vars` lists each name once; `free_vars` must be listed in the same
     // (variable) order as `vars`. Which order the tool gives to unlisted variables is not part of
@@ -342,6 +389,13 @@ pub fn run(ctx: &Ctx) -> (Stats, Spec) {
     let mut st = Stats::new();
     positional(&mut st);
     long_binders(ctx, &mut st);
+    // (own thread: deep recursion wants the workers' large stack)
+    let deep = util::par_jobs(1, |_| {
+        let mut s = Stats::new();
+        deep_nesting(ctx, &mut s);
+        s
+    });
+    st.merge(crate::report::merge_all(deep));
     let parts = util::par_jobs(32, |job| exhaustive_job(job, 32));
     st.merge(crate::report::merge_all(parts));
     st.exhaustive.push("all stacks of <= 3 binders (exists/forall/lfp/gfp on x, y, z; two-name lists; the empty list) around 8 cores, with and without a free copy outside; every construct as the position of the free occurrence under 10 binder contexts".into());
@@ -349,13 +403,14 @@ pub fn run(ctx: &Ctx) -> (Stats, Spec) {
     let parts = util::par_jobs(16, |job| random_job(ctx, job, iters));
     st.merge(crate::report::merge_all(parts));
     let spec = Spec {
-        rule: "binder-heavy random formulas over 2-4 names (also primed / non-ASCII), with and without an explicit ordering (permutation, subset, superset with unused names, sparse unsorted ids); exhaustive binder skeletons; positional forms; binder lists with 11-70 names in an order unrelated to the variable order (re-bound in reverse / shuffled order, partly free outside, nested re-binding, with and without an ordering). free_vars / vars are compared as ordered name lists with the reference binder analysis and order rule; labels of the evaluated diagram must be free names. distinct = (text, ordering); non-trivial = the formula contains a binder that binds at least one name.".into(),
+        rule: "binder-heavy random formulas over 2-4 names (also primed / non-ASCII), with and without an explicit ordering (permutation, subset, superset with unused names, sparse unsorted ids); exhaustive binder skeletons; positional forms; binder lists with 11-70 names in an order unrelated to the variable order (re-bound in reverse / shuffled order, partly free outside, nested re-binding, with and without an ordering); binders under 257-300 [quick] / 129-600 [thorough] levels of nesting (quantifiers on distinct names, negations, if-conditions, lists, left-nested operators, fixed points). free_vars / vars are compared as ordered name lists with the reference binder analysis and order rule; labels of the evaluated diagram must be free names. distinct = (text, ordering); non-trivial = the formula contains a binder that binds at least one name.".into(),
         assumptions: vec!["reference-free formulas only (as the statement says); non-convergent fixed points are parsed but not evaluated".into()],
         floors: vec![
             ("name_both_bound_and_free".into(), 1_000, "names both bound and free hardly exercised".into()),
             ("name_only_bound".into(), 1_000, "names occurring only bound hardly exercised".into()),
             ("positional_forms".into(), 100, "positional forms not judged".into()),
             ("many_names_cases".into(), 50, "long binder lists not exercised".into()),
+            ("deeply_nested_cases".into(), 10, "deep nesting not exercised".into()),
             ("binder_skeletons".into(), 10_000, "binder skeletons not judged".into()),
             ("distinct_nontrivial".into(), 20_000, "too few non-trivial cases".into()),
         ],
